@@ -32,7 +32,7 @@ def gen_tree(rng, depth, fan, big_ok=True):
     out = {}
     n = rng.randrange(0 if depth < 3 else 1, fan + 1)
     for i in range(n):
-        key = rng.choice(["k", "key", "ключ", "a b", "Ünï", "x" * 40, "_guid_", "0"]) + str(i)
+        key = rng.choice(["k", "key", "ключ", "a b", "Ünï", "x" * 40, "_guid_", "0", "\ufeffbom"]) + str(i)
         if i == 0 and rng.random() < 0.1:
             key = ""
         if depth > 0 and rng.random() < 0.4:
@@ -46,7 +46,7 @@ def gen_tree(rng, depth, fan, big_ok=True):
         elif t == "double":
             v = rng.choice([0.0, -0.0, 1.5, -2.25e300, 5e-324, float("inf"), float("-inf"), float("nan"), struct.unpack("<d", bytes.fromhex("010000000000f07f"))[0], rng.random()])
         elif t == "string":
-            v = rng.choice(["", "x", "hello world", "späce ünï", "\U0001F600 astral", "A" * 100, "4E1D459F;0\\0\\L"])
+            v = rng.choice(["", "x", "hello world", "späce ünï", "\U0001F600 astral", "A" * 100, "4E1D459F;0\\0\\L", "\ufeffbyte order mark first", "\ufffereversed mark", "in\ufeffside", "\x00nul first"])
             if big_ok and rng.random() < 0.15:
                 v = "".join(rng.choice("abcdefé ") for _ in range(rng.choice([0x400, 0x401, 0x7FF, 0x1000])))  # 0x800+ bytes in UTF-16
         elif t == "array":
@@ -247,11 +247,11 @@ def expected(tree):
     return out
 
 
-def decode_real(img):
+def decode_real(img, opened=None):
     from dissect.hypervisor.descriptor.c_hyperv import KeyDataType
     from dissect.hypervisor.descriptor.hyperv import HyperVFile
 
-    hf = HyperVFile(io.BytesIO(img))
+    hf = opened if opened is not None else HyperVFile(io.BytesIO(img))
     names = {KeyDataType.Int: "int", KeyDataType.UInt: "uint", KeyDataType.Double: "double", KeyDataType.String: "string", KeyDataType.Array: "array", KeyDataType.Bool: "bool"}
 
     def walk(children):
@@ -300,6 +300,7 @@ def first_diff(a, b, path=""):
 def main(seed, n_files):
     rng = random.Random(seed)
     failures, evals, nodes = [], 0, 0
+    prev = None
     for ci in range(n_files):
         depth = rng.choice([0, 1, 2, 3, 4])
         fan = rng.choice([1, 2, 4, 6])
@@ -325,6 +326,22 @@ def main(seed, n_files):
         if not same(as_dict, stripped):
             failures.append({**rec, "problem": f"as_dict() differs from the entry walk at {first_diff(stripped, as_dict)}"})
         nodes += sum(1 for _ in _count(tree))
+        # two containers open in one process: the earlier one is decoded only after the later one has been opened (values are resolved
+        # lazily); it must still decode to its own tree
+        if prev is not None:
+            from dissect.hypervisor.descriptor.hyperv import HyperVFile
+
+            try:
+                hf_a = HyperVFile(io.BytesIO(prev[0]))
+                HyperVFile(io.BytesIO(img))
+                typed_a = decode_real(prev[0], opened=hf_a)[0]
+                d = first_diff(prev[1], typed_a)
+                if d:
+                    failures.append({**rec, "problem": f"container of case {prev[2]} decoded after this one was opened differs from its own stored tree at {d}"})
+            except Exception as e:  # noqa: BLE001
+                failures.append({**rec, "problem": f"two containers open: raise {type(e).__name__}: {e}"})
+            evals += 1
+        prev = (img, want, ci)
     print(json.dumps({"evaluations": evals, "entries": nodes, "n_failures": len(failures), "failures": failures[:6],
                       "rule": "generated trees (depth 0..4, fan-out 1..6, UTF-8 keys, all seven types, strings/arrays >= 0x800 bytes in file objects) spread over 1..8 key tables with free entries, "
                               "stale lower-sequence tables, chained object tables, distractor object entries, either header slot active: decoded typed tree == generated tree and as_dict() agrees"}))
